@@ -233,6 +233,90 @@ fn check_written_order(order: &[(String, String)]) -> Result<(), String> {
     Ok(())
 }
 
+/// A file whose MODULE content is partly in include files (one level): load, sort(), write next to
+/// the main file, load again. The property promises the same model in the same order.
+fn sorted_file_with_includes_case(rng: &mut vcommon::rng::Rng, rec: &mut Recorder, g: &Grammar, scratch: &std::path::Path, case: u64) {
+    let Some(main) = crate::c16::make_tree_levels(rng, g, scratch, case, 1) else { return };
+    let root = main.parent().unwrap().to_path_buf();
+    let cleanup = |_: ()| {
+        let _ = std::fs::remove_dir_all(&root);
+    };
+    crate::util::set_budget(50_000_000);
+    let loaded = guarded(|| a2lfile::load(&main, None, false));
+    crate::util::reset_budget();
+    let Ok(Ok((m0, _))) = loaded else {
+        rec.bump("include_tree.rejected");
+        return cleanup(());
+    };
+    if has_duplicate_names(&m0) {
+        rec.bump("skipped.duplicate_names");
+        return cleanup(());
+    }
+    rec.eval();
+    rec.bump("sorted_files_with_includes");
+    let main_text = std::fs::read_to_string(&main).unwrap_or_default();
+    rec.nontrivial(main_text.as_bytes());
+    let mut ms = m0.clone();
+    if let Err((sig, detail)) = guarded(|| ms.sort()) {
+        rec.violation(&sig, &detail, witness_text("C14 include tree", &main_text, "sort()"));
+        return cleanup(());
+    }
+    let out = root.join("sorted.a2l");
+    if let Err((sig, detail)) = guarded(|| ms.write(&out, None)) {
+        rec.violation(&sig, &detail, witness_text("C14 include tree", &main_text, "write after sort()"));
+        return cleanup(());
+    }
+    let written = std::fs::read_to_string(&out).unwrap_or_default();
+    crate::util::set_budget(50_000_000);
+    let reloaded = guarded(|| a2lfile::load(&out, None, false));
+    crate::util::reset_budget();
+    match reloaded {
+        Err((sig, detail)) => rec.violation(&sig, &detail, witness_text("C14 include tree", &main_text, &clip(&written, 2000))),
+        Ok(Err(e)) => rec.violation(
+            "sort(): written text does not load [file with include directives]",
+            &e.to_string(),
+            witness_text("C14 include tree", &main_text, &clip(&written, 2000)),
+        ),
+        Ok(Ok((mr, _))) => {
+            let mut n1 = ms.clone();
+            let mut n2 = mr.clone();
+            crate::c01::normalise_reserved(&mut n1);
+            crate::c01::normalise_reserved(&mut n2);
+            if n1 != n2 {
+                // same elements, another list order? (named lists: equal after sorting again; lists of
+                // unnamed elements such as IF_DATA or ANNOTATION: the same Debug lines in another order)
+                let mut s2 = n2.clone();
+                s2.sort();
+                let lines = |f: &A2lFile| {
+                    let mut v: Vec<String> = format!("{f:#?}")
+                        .lines()
+                        .map(|l| l.trim().replace("-0.0,", "0.0,"))
+                        .filter(|l| {
+                            !(l.starts_with("line:")
+                                || l.starts_with("uid:")
+                                || l.starts_with("start_offset:")
+                                || l.starts_with("end_offset:")
+                                || l.starts_with("incfile:")
+                                || (l.starts_with('"') && l.contains("\": ") && l.ends_with(',') && l.rsplit(' ').next().is_some_and(|n| n.trim_end_matches(',').parse::<u32>().is_ok())))
+                        })
+                        .collect();
+                    v.sort_unstable();
+                    v
+                };
+                let sig = if s2 == n1 || lines(&n1) == lines(&n2) || crate::c01::model_diff(&n1, &n2).starts_with("same Debug lines in a different order") {
+                    "sort(): reloaded model has another list order than the sorted model [file with include directives]"
+                } else {
+                    "sort(): reloaded model differs from the sorted model [file with include directives]"
+                };
+                rec.violation(sig, &crate::c01::model_diff(&ms, &mr), witness_text("C14 include tree", &main_text, &clip(&written, 2000)));
+            } else {
+                rec.bump("sorted_files_with_includes.stable");
+            }
+        }
+    }
+    cleanup(());
+}
+
 /// give the first MODULE that has an A2ML block a small definition and module-level IF_DATA that
 /// conforms to it, one block in front of the A2ML block and one behind it
 fn plant_ifdata_around_a2ml(doc: &mut vcommon::doc::Doc) -> bool {
@@ -268,7 +352,12 @@ pub fn run(args: &Args, rec: &mut Recorder) {
     rec.assumptions.push("names are duplicate-free per list (generator); module-level comments are dropped by sort() by design and are not judged".into());
     let g = Grammar::load_default();
     let total: u64 = if args.thorough { 300_000 } else { 40_000 };
+    let scratch = crate::c03::scratch_dir(args);
     run_cases(args, rec, total, crate::util::reset_budget, |rng, case, rec| {
+        if case % 25 == 9 {
+            sorted_file_with_includes_case(rng, rec, &g, &scratch, case);
+            return None;
+        }
         let mut cfg = crate::c01::gen_cfg_wide(rng, args.thorough);
         cfg.max_modules = 3;
         cfg.max_repeat = 4;
@@ -453,7 +542,9 @@ pub fn run(args: &Args, rec: &mut Recorder) {
         }
         None
     });
+    let _ = std::fs::remove_dir_all(&scratch);
     rec.floor("modules.1", 5);
+    rec.floor("sorted_files_with_includes", 10);
     rec.floor("docs.with_conforming_if_data_in_front_of_the_a2ml_block", 5);
     rec.floor("modules.2", 5);
     rec.floor("elements_compared", 1000);
